@@ -152,10 +152,12 @@ example : ∀ f ∈ Fmt.all, wfT Gen.functions sampleTree = true ∧
   decide
 
 set_option maxRecDepth 100000 in
-/-- what the model prints for it in C: `2.000000-((1 / (1 + exp(-X1)))*(-3.500000))` -/
-example : language Gen.functions Gen.terminals .c sampleTree =
-    [50, 46, 48, 48, 48, 48, 48, 48, 45, 40, 40, 49, 32, 47, 32, 40, 49, 32, 43, 32, 101, 120, 112, 40,
-     45, 88, 49, 41, 41, 41, 42, 40, 45, 51, 46, 53, 48, 48, 48, 48, 48, 41, 41] := by
+/-- the model prints it in C as `2.000000-((1 / (1 + exp(-X1)))*(-3.500000))` (not pinned here: a
+    harmless change of a template must not break the build); the executable parser reads the
+    printed text back as the program's tree without its outer parentheses -/
+example : ∀ f ∈ Fmt.all,
+    parse f (lexS f (language Gen.functions Gen.terminals f sampleTree)) =
+      some (stripAst (astT Gen.functions Gen.terminals f sampleTree)) := by
   decide
 
 end Vita.C19
